@@ -31,6 +31,11 @@ chk("C11","simio","exploration",
  "Trusts encoding/json of the toolchain as reference, the simulated reader honouring the io.Reader contract, and valid-JSON-only streams (value semantics is C02's input dimension).",
  "deterministic simulation: simulated io.Reader with seeded chunk schedules and injected reader faults, refinement against encoding/json","DESIGN.md section 3 C11")
 
+# ENGINES_FIRST
+engines=[
+ {"name":"simio","path":"sim/simio, sim/props/c11.go","serves_properties":["C11"],"kind_free_text":"simulated io.Reader (scripted chunking, zero reads, data+err, terminal errors) driving the real Decoder; reference model encoding/json"},
+ {"name":"sched","path":"shim/{sync,atomic,simhook}, tools/instrument, sim/props/c09.go","serves_properties":["C09"],"kind_free_text":"token-passing scheduler over real goroutines behind import-redirected sync and sync/atomic; simulated sync.Pool; race detector with scheduler hand-offs hidden"},
+]
 import sys
 extra = {}
 try:
@@ -39,10 +44,6 @@ except FileNotFoundError:
     pass
 checks.sort(key=lambda c:c["property_id"])
 claimed={c["property_id"] for c in checks}
-engines=[
- {"name":"simio","path":"sim/simio, sim/props/c11.go","serves_properties":["C11"],"kind_free_text":"simulated io.Reader (scripted chunking, zero reads, data+err, terminal errors) driving the real Decoder; reference model encoding/json"},
- {"name":"sched","path":"shim/{sync,atomic,simhook}, tools/instrument, sim/props/c09.go","serves_properties":["C09"],"kind_free_text":"token-passing scheduler over real goroutines behind import-redirected sync and sync/atomic; simulated sync.Pool; race detector with scheduler hand-offs hidden"},
-]
 m={"version":1,"setup_cmd":"./setup.sh",
  "hooks":{"guard":"none in /repo: seams are added at check time by redirecting the imports \"sync\" and \"sync/atomic\" of a scratch copy of the working tree to shim packages (tools/instrument); /repo carries no hook code",
           "enable":"./check <ID> <tier> copies /repo's working tree to /var/tmp/verif-work/<tmp>/repo, (for C09/C10/C17) copies /verif/shim into it as verifshim/ and runs bin/instrument over the non-test sources, then builds /verif/sim against that copy (with -race for C09)",
